@@ -20,7 +20,7 @@ def deduper(rows: ResourceWrapper):
 def deduplicate(resources=None):
 
     def func(package: PackageWrapper):
-        resource_matcher = ResourceMatcher(resources, package)
+        resource_matcher = ResourceMatcher(resources, package.pkg)
         yield package.pkg
         resource: ResourceWrapper
         for resource in package:
